@@ -302,7 +302,6 @@ theorem allWF_step {s s' : St} {e : Ev} (hw : AllWF s) (h : step s e = some s') 
         · exact allWF_applyWrite hw h
         · cases h
       · injection h with h; subst h; exact hw
-    · split at h <;> (injection h with h; subst h; exact hw)
     · injection h with h; subst h; exact hw
 
 theorem allWF_run {s s' : St} {evs : List Ev} (hw : AllWF s) (h : run s evs = some s') : AllWF s' := by
